@@ -119,6 +119,8 @@ inductive Prog where
   | event                                      -- observe `Traceparent::current`, ambient ids, both filters
   | span (children : List Prog)                -- a span whose body runs the children on the same thread
   | spanThread (children : List Prog)          -- … whose body (guard + frame) is moved to a fresh thread
+  | spanAsync (children : List Prog)           -- … whose body is a future polled once per child: the frame is
+                                               --   entered and exited around EVERY poll (`FrameFuture::poll`)
   | push (tp : TP) (children : List Prog)      -- `Traceparent::push(tp)` frame entered around the children
   | carry (children : List Prog)               -- `Frame::current(ctxt)` captured here, entered on a fresh thread
   deriving Repr
@@ -174,6 +176,16 @@ def pushedActive (st : Option Active) (tp : TP) : Active :=
     | some a => if a.tp.traceId.isSome && a.tp.traceId == tp.traceId then a.tp.spanId else none
     | none => none⟩
 
+/-- A `TraceparentCtxtFrame`: `active` is fixed at creation (`slot.is_some()`); `enter` and `exit` both swap the
+    slot with the thread's active traceparent when the frame is active. -/
+structure Frm where
+  active : Bool
+  slot : Option Active
+  deriving Repr, DecidableEq
+
+def Frm.swap (f : Frm) (st : Option Active) : Frm × Option Active :=
+  if f.active then ({ f with slot := st }, f.slot) else (f, st)
+
 mutual
 def run (c : Cfg) : Prog → Env → Env
   | .event, e => observeEvent c e
@@ -191,6 +203,14 @@ def run (c : Cfg) : Prog → Env → Env
     let e3 := completeSpan o.1 e2
     -- back on the spawning thread nothing changed
     { e3 with st := e1.st }
+  | .spanAsync cs, e =>
+    let o := openSpan c e
+    let e1 := o.2.2.2
+    let r := runPolls c cs ⟨o.2.2.1.isSome, o.2.2.1⟩ e1
+    -- the last poll: enter, the body finishes and the guard completes inside the frame, exit
+    let i := r.1.swap r.2.st
+    let e3 := completeSpan o.1 { r.2 with st := i.2 }
+    { e3 with st := (i.1.swap e3.st).2 }
   | .push tp cs, e =>
     let e2 := runList c cs { e with st := some (pushedActive e.st tp) }
     { e2 with st := e.st }
@@ -202,6 +222,14 @@ def run (c : Cfg) : Prog → Env → Env
 def runList (c : Cfg) : List Prog → Env → Env
   | [], e => e
   | p :: ps, e => runList c ps (run c p e)
+/-- one poll per child: enter (swap), run the segment, exit (swap) -/
+def runPolls (c : Cfg) : List Prog → Frm → Env → Frm × Env
+  | [], f, e => (f, e)
+  | p :: ps, f, e =>
+    let i := f.swap e.st
+    let e1 := run c p { e with st := i.2 }
+    let o := i.1.swap e1.st
+    runPolls c ps o.1 { e1 with st := o.2 }
 end
 
 /-- The UNFIXED `open_push` for `Frame::current`: the frame is inactive, the fresh thread has no traceparent. -/
